@@ -448,15 +448,17 @@ class Engine(
         """Return the identities of the FROM clause objects that `to_payload`
         would include directly (i.e. not via a subquery) for a relation.
         """
-        if relation.payload is not None:
-            return {id(cast(Payload, relation.payload).from_clause)}
         match relation:
             case Select():
                 return set()
             case MarkerRelation():
-                # A Materialization or Transfer that has not been processed
-                # yet; its one future payload is identified by the relation.
+                # A Materialization or Transfer is identified by the relation
+                # itself, whether or not its payload has been attached yet, so
+                # that the same calls always build the same tree.  (to_payload
+                # checks the actual FROM objects again once they are known.)
                 return {id(relation)}
+            case LeafRelation() if relation.payload is not None:
+                return {id(cast(Payload, relation.payload).from_clause)}
             case UnaryOperationRelation(target=target):
                 return self._direct_from_clauses(target)
             case BinaryOperationRelation(lhs=lhs, rhs=rhs):
